@@ -28,7 +28,7 @@ type shapeCase struct {
 }
 
 func (c shapeCase) build() (geom.Geometry, error) {
-	shapes := universe.Shapes(c.D, c.W)
+	shapes := append(universe.Shapes(c.D, c.W), universe.ShortRingShapes()...)
 	if c.Idx < 0 || c.Idx >= len(shapes) {
 		return geom.Geometry{}, fmt.Errorf("shape index out of range")
 	}
@@ -269,7 +269,7 @@ func c04Main(r *engine.Run) {
 			offs = append(offs, o)
 		}
 	}
-	shapes := universe.Shapes(d, w)
+	shapes := append(universe.Shapes(d, w), universe.ShortRingShapes()...)
 	r.States.Add(int64(len(shapes)))
 	done := r.Parallel(len(shapes), func(i int) {
 		s := shapes[i]
@@ -283,7 +283,12 @@ func c04Main(r *engine.Run) {
 			}
 			c := shapeCase{D: d, W: w, Idx: i, Shape: s.String(), CT: int(ct), Sup: "cell"}
 			g := universe.Build(s, ct, &universe.CellSupplier{})
-			if p := engine.SafeCall(func() { c04One(r, g, c, 2, 1); c04Scan(r, g, c) }); p != nil {
+			if p := engine.SafeCall(func() {
+				c04One(r, g, c, 2, 1)
+				if g.Validate() == nil { // Scan validates; short-ring shapes are invalid by construction
+					c04Scan(r, g, c)
+				}
+			}); p != nil {
 				r.Violation("C04/panic", "shape", c, fmt.Sprint(p))
 			}
 			if s.HasEmptyMember() || s.Depth() >= 2 || ct != geom.DimXY {
